@@ -105,6 +105,13 @@ fn paths() -> Vec<PathSpec> {
         PathSpec::rect(0., 2., 3., 2.),
         PathSpec::rect(0., -0.25, 3., 0.5),
         PathSpec::rect(-0.25, 1.75, 3.5, 0.5),
+        // many overlapping contours: winding numbers and edge counts beyond 8-bit ranges
+        p((0..130).flat_map(|_| vec![M(0.25, 0.25), L(2.75, 0.25), L(2.75, 1.75), L(0.25, 1.75), Z]).collect()),
+        p(std::iter::once(M(0.5, 1.0)).chain((0..260).map(|i| if i % 2 == 0 { L(2.5, 1.0 + (i as f32) * 1e-3) } else { L(0.5, 1.0 + (i as f32) * 1e-3) })).collect()),
+        p(vec![A(0., 0., 300., 0., 2.0 * pi)]),
+        // hairpins: near-reversals whose uncut miter would lie far outside the working range
+        p(vec![M(10., 10.), L(265., 10.), L(10., 11.)]),
+        p(vec![M(0., 0.), L(2000., 0.), L(0., 0.1), Z]),
     ]
 }
 
@@ -180,7 +187,7 @@ fn contexts() -> Vec<(Vec<Op>, Vec<Op>)> {
 }
 
 fn widths() -> Vec<f32> {
-    vec![1.0, f32::NAN, f32::NEG_INFINITY, -1.0, -f32::MIN_POSITIVE, 0.0, f32::MIN_POSITIVE, 1e-3, 100.0]
+    vec![1.0, f32::NAN, f32::NEG_INFINITY, -1.0, -f32::MIN_POSITIVE, 0.0, f32::MIN_POSITIVE, 1e-3, 100.0, 128.0, 650.0]
 }
 
 fn dashes() -> Vec<Vec<f32>> {
